@@ -205,6 +205,17 @@ class Path:
             self.idx_tags.append(tk)
         return t
 
+    def auto_index(self, i, n):
+        """reading a base array at a symbolic index makes that index an instantiation term for the universal facts
+        about arrays of that length"""
+        if isinstance(i, int):
+            return z3.IntVal(i)
+        if z3.is_const(i) and i.decl().kind() == z3.Z3_OP_UNINTERPRETED and i.decl().name().startswith("__"):
+            return i  # bound variable of a lambda
+        if not z3.is_int_value(i):
+            self.index_term(i, n)
+        return i
+
     # -- assumptions -----------------------------------------------------
     def assume(self, cond):
         if isinstance(cond, bool):
@@ -431,6 +442,11 @@ class Path:
             for inst in extra:
                 if inst.get_id() not in have:
                     s.add(inst)
+            if os.environ.get("PYVC_DUMP") and os.environ["PYVC_DUMP"] in ob.name:
+                s.push()
+                s.add(z3.Not(f))
+                open("/tmp/pyvc_dump.smt2", "w").write(s.to_smt2())
+                s.pop()
             res, backend, model = solve_valid_inc(s, f, self.ex.timeout_ms)
             # model-guided instantiation: a counter-model found with PARTIALLY instantiated universal facts is
             # re-checked after instantiating every fact at the integer values the model gives to the index terms
